@@ -450,3 +450,24 @@ package parse
 //@ func (Node).HasDef
 //@ func (Node).LookupType
 //@   params s
+
+// ---------------------------------------------------------------------------
+// Cardinality enforcement (C09): a statement is accepted exactly when every row of its cardinality table is
+// met by its substatements (min = 1 iff Start is '1', max = 1 iff End is '1'; the row NodeDataDef counts the
+// data-definition substatements) and every substatement is an extension or has a row.
+//@ define cmatch(c, k) = node_type(c) == k || (k == NodeDataDef && node_type(c) > NodeDataDef && node_type(c) < NodeDataDefEnd)
+//@ define has1(n, k, hi) = exists(i, 0, hi, cmatch(n.children[i], k))
+//@ define has2(n, k, hi) = exists(i, 0, hi, exists(j, i+1, hi, cmatch(n.children[i], k) && cmatch(n.children[j], k)))
+//@ define rowok(n, k) = implies(n.card[k].Start == '1', has1(n, k, len(n.children))) && implies(n.card[k].End == '1', !has2(n, k, len(n.children)))
+//@ define childok(n, i) = node_type(n.children[i]) == NodeUnknown || node_type(n.children[i]) == NodeDataDef || inmap(n.card, node_type(n.children[i]))
+//@ define cardChecked(n) = !(n.NodeType == NodeUnknown || n.NodeType == NodeRefine || (n.NodeType > NodeDeviate && n.NodeType < NodeDeviateEnd))
+//@ define cardWF(n) = forallint(k, implies(inmap(n.card, k), (n.card[k].Start == '0' || n.card[k].Start == '1') && (n.card[k].End == '1' || n.card[k].End == 'n')))
+//@ func (*node).checkCardinality
+//@   requires n != nil && cardWF(n) && forall(i, 0, len(n.children), n.children[i] != nil)
+//@   ensures implies(cardChecked(n) && result == nil, forallint(k, implies(inmap(n.card, k), rowok(n, k))))
+//@   ensures implies(cardChecked(n) && result == nil, forall(i, 0, len(n.children), childok(n, i)))
+//@   ensures implies(result != nil, cardChecked(n) && (existsint(k, inmap(n.card, k) && !rowok(n, k)) || exists(i, 0, len(n.children), !childok(n, i))))
+//@   loop 0 invariant forallint(k, cmap[k] >= 0 && iff(cmap[k] >= 1, has1(n, k, loopidx+1)) && iff(cmap[k] >= 2, has2(n, k, loopidx+1)))
+//@   loop 0 invariant forallint(k, iff(inmap(cmap, k), cmap[k] >= 1))
+//@   loop 1 invariant forallint(k, implies(visited(k), rowok(n, k)))
+//@   loop 2 invariant forallint(k, implies(visited(k), k == NodeUnknown || k == NodeDataDef || inmap(n.card, k)))
